@@ -165,7 +165,8 @@ class EqualizedOddsCurves(NdContract):
         self.sf, self.labels, self.scores, self.flip = Abstract("sf"), Abstract("labels"), Abstract("scores"), Abstract("flip")
         self.gs = Int("grid_size")
         st.assume(M >= 1, self.gs >= 1)
-        st.env.update({"self": Obj("ThresholdOptimizer", {"grid_size": self.gs, "flip": self.flip}), "sensitive_features": self.sf, "labels": self.labels, "scores": self.scores})
+        st.env.update({"self": Obj("ThresholdOptimizer", {"grid_size": self.gs, "flip": self.flip, "_x_grid": Abstract("x_grid_of_an_earlier_fit"),
+                                                          "_tradeoff_curve": Abstract("curves_of_an_earlier_fit")}), "sensitive_features": self.sf, "labels": self.labels, "scores": self.scores})
 
     def on_call(self, eng, st, node, name, recv, args, kwargs):
         if name == "_reformat_and_group_data":
